@@ -1,5 +1,6 @@
 (* c18 model driver: one case per line
      <variant> <name> <validity> <value> [<context_flags>|- [<fill>]]
+     R <arch> <fill> <len>   (MinidumpContext::read: the context type chosen; Driver.run_read)
    context_flags: written into the model's context_flags field; fill: every 32-bit word of the base context
    (so every integer field holds the word repeated to its width); absent = the pattern base (sentinel)
    name: `-` = empty string, `~` = a space; validity: `A` or `S:n1,n2,...` (`S:` = empty set)
@@ -24,10 +25,18 @@ let () =
       if String.length line > 0 && line.[0] <> '#' then begin
         let opt t = if t = "-" then None else Some (z_of_string t) in
         match (match split_ws line with
+               | ["R"; arch; fill; len] ->
+                 let show = function CNum x -> string_of_z x | _ -> "P" in
+                 print_endline (match run_read (z_of_string arch) (z_of_string fill) (z_of_string len) with
+                                | RdVariant (v, sz, ip) -> "rd=" ^ string_of_name v ^ ";rsz=" ^ show sz ^ ";rip=" ^ show ip
+                                | RdReadFailure -> "rd=RF"
+                                | RdUnknown -> "rd=UC");
+                 Some ("", "", "", "", None, None)
                | [a; b; c; d] -> Some (a, b, c, d, None, None)
                | [a; b; c; d; f] -> Some (a, b, c, d, opt f, None)
                | [a; b; c; d; f; w] -> Some (a, b, c, d, opt f, opt w)
                | _ -> None) with
+        | Some ("", _, _, _, _, _) -> ()
         | Some (variant, nm, vspec, value, flags, fill) ->
           let v =
             if vspec = "A" then VAll
